@@ -10,6 +10,10 @@
 //!   K  Document::new(text, CollapseIdentifiers(PlainEnglish))                  vs document_plain_ci
 //!      (the dictionary of the model = the contains_word queries the real dictionary answered `true` to,
 //!       recorded by a delegating wrapper `RecDict`)
+//!   M  Markdown::parse(text) with the pulldown-cmark event stream recorded by the harness (arm, payload length,
+//!      byte range of every event)  vs C02Markdown.markdown_parse on that stream; the line also carries K1/K0 =
+//!      the contract of C02_markdown_glue evaluated by the harness vs the extracted md_contractb
+//!   N  Document::new(text, Markdown)                                              vs document_markdown
 //!   U  the Unicode predicates the model is instantiated with are dumped from Rust's char methods
 //!      (is_english_lingual is private: it is observed through PlainEnglish.parse on one-character texts)
 //! Oracle (failing-input search): tiling of the plain pipeline, the four invariants on every front-end,
@@ -582,6 +586,235 @@ fn case_frontend(rep: &mut Report, fe: &str, text: &str, dict: &Arc<FstDictionar
 }
 
 
+// ---------------------------------------------------------------- Markdown glue (M, N)
+/// what Markdown::parse reads of a pulldown-cmark event: the arm of its `match`, the payload's char count, the byte range
+struct MdEv {
+    code: u32,
+    n: usize,
+    rs: usize,
+    re: usize,
+}
+const MD_EV_NAMES: [&str; 9] = ["start", "end_breaking", "end_other", "soft_break", "hard_break", "code_or_math", "text", "html", "other"];
+
+fn md_events(text: &str) -> Option<Vec<MdEv>> {
+    use pulldown_cmark::{Event, Tag, TagEnd};
+    let evs = guarded(|| {
+        let p = pulldown_cmark::Parser::new_ext(text, pulldown_cmark::Options::all().difference(pulldown_cmark::Options::ENABLE_SMART_PUNCTUATION));
+        p.into_offset_iter().collect::<Vec<_>>()
+    })
+    .ok()?;
+    let n = |s: &str| s.chars().count();
+    let mut out = vec![];
+    for (ev, range) in &evs {
+        let (code, k) = match ev {
+            Event::SoftBreak => (3, 0),
+            Event::HardBreak => (4, 0),
+            Event::Start(Tag::List(_)) => (0, 9),
+            Event::Start(t) => (
+                0,
+                match t {
+                    Tag::Paragraph => 0,
+                    Tag::Link { .. } => 1,
+                    Tag::Heading { .. } => 2,
+                    Tag::Item => 3,
+                    Tag::TableCell => 4,
+                    Tag::Emphasis => 5,
+                    Tag::Strong => 6,
+                    Tag::Strikethrough => 7,
+                    Tag::CodeBlock(_) => 8,
+                    _ => 10,
+                },
+            ),
+            Event::End(TagEnd::Paragraph) | Event::End(TagEnd::Item) | Event::End(TagEnd::Heading(_)) | Event::End(TagEnd::CodeBlock) | Event::End(TagEnd::TableCell) => (1, 0),
+            Event::End(_) => (2, 0),
+            Event::InlineMath(c) | Event::DisplayMath(c) | Event::Code(c) => (5, n(c)),
+            Event::Text(t) => (6, n(t)),
+            Event::Html(c) | Event::InlineHtml(c) => (7, n(c)),
+            _ => (8, 0),
+        };
+        out.push(MdEv { code, n: k, rs: range.start, re: range.end });
+    }
+    Some(out)
+}
+
+/// The contract of C02_markdown_glue (Model/C02Markdown.v: md_contractb), evaluated on the real event stream,
+/// independently of the model: the violated clauses.
+fn md_contract_violations(text: &str, evs: &[MdEv]) -> Vec<String> {
+    let mut bad = vec![];
+    let (mut tb, mut hi) = (0usize, 0usize);
+    for (i, e) in evs.iter().enumerate() {
+        let name = MD_EV_NAMES[e.code as usize];
+        if !(e.rs <= e.re && text.is_char_boundary(e.rs) && text.is_char_boundary(e.re)) {
+            bad.push(format!("K1 event {i} ({name}) has the range {}..{}: reversed, out of the source or off a char boundary", e.rs, e.re));
+            break; // the later clauses slice the source by this range
+        }
+        let need = match e.code {
+            3 | 4 => Some((1usize, true)),
+            5 | 7 => Some((e.n, true)),
+            6 => Some((0, false)),
+            _ => None,
+        };
+        if let Some((n, nonempty)) = need {
+            // structural marker of finding FC02b: the event is an exact repeat (arm, payload length, range) of an earlier leaf event
+            let rep_marker = if e.re > e.rs && evs[..i].iter().any(|p| p.code == e.code && p.n == e.n && p.rs == e.rs && p.re == e.re) { " [repeated event]" } else { "" };
+            if tb > e.rs {
+                bad.push(format!("K2 leaf event {i} ({name}) starts at byte {} before an earlier range start {tb}{rep_marker}", e.rs));
+            }
+            if hi > e.rs {
+                bad.push(format!("K2 leaf event {i} ({name}) starts at byte {} inside an earlier leaf range ending at {hi}{rep_marker}", e.rs));
+            }
+            let have = text[e.rs..e.re].chars().count();
+            if n > have {
+                bad.push(format!("K3 leaf event {i} ({name}) claims {n} characters, its source range {}..{} holds {have}", e.rs, e.re));
+            }
+            if nonempty && n == 0 {
+                bad.push(format!("K3 leaf event {i} ({name}) has an empty payload: a zero-width Unlintable token"));
+            }
+            hi = e.re;
+        }
+        tb = tb.max(e.rs);
+    }
+    bad
+}
+
+fn case_markdown(rep: &mut Report, text: &str, ilt: bool, dict: &Arc<FstDictionary>, origin: &str) {
+    use harper_core::parsers::{Markdown, MarkdownOptions};
+    rep.eval();
+    let src: Vec<char> = text.chars().collect();
+    let inp = json!({"kind": "md", "fe": if ilt { "markdown-ilt" } else { "markdown" }, "text": text, "ilt": ilt});
+    let Some(evs) = md_events(text) else {
+        rep.count("md:pulldown_cmark_panicked");
+        return;
+    };
+    // ---- the hypothesis of C02_markdown_glue, monitored on every generated document
+    let bad = md_contract_violations(text, &evs);
+    rep.monitor("md_event_streams_checked", 1);
+    rep.monitor("md_events_checked", evs.len() as u64);
+    rep.monitor("md_contract_violations", bad.len() as u64);
+    for b in &bad {
+        fail(rep, "md_contract", format!("the pulldown-cmark event stream violates the contract of C02_markdown_glue: {b}"), inp.clone());
+    }
+    for e in &evs {
+        rep.count(&format!("md_event:{}", MD_EV_NAMES[e.code as usize]));
+    }
+    let clamped = evs.iter().filter(|e| e.code == 6 && text.is_char_boundary(e.rs) && text.is_char_boundary(e.re) && e.rs <= e.re && e.n > text[e.rs..e.re].chars().count()).count();
+    if clamped > 0 {
+        rep.count("md_doc_with_clamped_text_event(F27 shape)");
+    }
+    // structural markers of the two known findings (computed from the event stream, not from the text):
+    // FC02a an empty Code / Math payload; FC02b a leaf event that exactly repeats an earlier one
+    let empty_math = evs.iter().any(|e| e.code == 5 && e.n == 0);
+    let repeated = evs.iter().enumerate().any(|(i, e)| matches!(e.code, 3..=7) && e.re > e.rs && evs[..i].iter().any(|p| p.code == e.code && p.n == e.n && p.rs == e.rs && p.re == e.re));
+    let mark = |class: &str, m: &str| -> String {
+        if class == "zero_width_kind" && empty_math && m.ends_with("of kind X") {
+            format!("{m} [empty math payload]")
+        } else if class == "out_of_order" && repeated {
+            format!("{m} [repeated pulldown-cmark events]")
+        } else {
+            m.to_string()
+        }
+    };
+    if empty_math {
+        rep.count("md_doc_with_empty_math_payload(FC02a)");
+    }
+    if repeated {
+        rep.count("md_doc_with_repeated_leaf_event(FC02b)");
+    }
+    let evline = evs.iter().map(|e| format!("{} {} {} {}", e.code, e.n, e.rs, e.re)).collect::<Vec<_>>().join(" ");
+    let k = if bad.is_empty() { "K1" } else { "K0" };
+    let mut mo = MarkdownOptions::default();
+    mo.ignore_link_title = ilt;
+    // ---- M: Markdown::parse
+    let imp = guarded(|| Markdown::new(mo).parse(&src));
+    let line = format!("M {} {} | {}", if ilt { 1 } else { 0 }, cps(&src), evline);
+    match &imp {
+        Ok(ts) => rep.case(line.trim(), &format!("{k} {}", toks_line(ts))),
+        Err(_) => rep.case(line.trim(), &format!("{k} P")),
+    }
+    rep.count(&format!("md_origin:{origin}"));
+    match &imp {
+        Ok(ts) => {
+            for (c, m) in general_failures(ts, src.len()) {
+                fail(rep, c, mark(c, &format!("[markdown parser] {m}")), inp.clone());
+            }
+            // what the glue theorem states beyond TokInv: EVERY token (zero-width ones too) lies inside the text
+            if let Some((i, t)) = ts.iter().enumerate().find(|(_, t)| t.span.end > src.len()) {
+                fail(rep, "out_of_bounds", format!("[markdown parser] token {i} {:?} ({}) ends beyond the text of {} characters", t.span, kind_str(&t.kind), src.len()), inp.clone());
+            }
+            if ts.iter().any(|t| t.span.start == t.span.end) {
+                rep.count("md_parse_with_zero_width_token");
+            }
+            let brackets = |ts: &[Token]| ts.iter().filter(|t| matches!(t.kind, TokenKind::Punctuation(Punctuation::OpenSquare | Punctuation::CloseSquare | Punctuation::Pipe))).count();
+            if text.contains("[[") && text.contains("]]") {
+                rep.count(if brackets(ts) == 0 { "md_wikilink_doc:no_bracket_token_left" } else { "md_wikilink_doc:bracket_tokens_left" });
+            }
+            if !ts.is_empty() {
+                rep.nontrivial(&("md", ilt, text.to_string()));
+            }
+        }
+        Err(m) => {
+            if bad.is_empty() {
+                fail(rep, "md_panic", format!("Markdown::parse panicked on an event stream that meets the contract: {m} at {}", last_panic_location()), inp.clone());
+            } else {
+                rep.count("md_panic_outside_contract");
+            }
+        }
+    }
+    // ---- N: Document::new(text, Markdown)
+    let doc = guarded(|| Document::new(text, &Markdown::new(mo), dict.as_ref()).get_tokens().to_vec());
+    let line = format!("N {} {} | {}", if ilt { 1 } else { 0 }, cps(&src), evline);
+    match &doc {
+        Ok(ts) => rep.case(line.trim(), &toks_line(ts)),
+        Err(_) => rep.case(line.trim(), "P"),
+    }
+    if let Ok(ts) = &doc {
+        for (c, m) in general_failures(ts, src.len()) {
+            fail(rep, c, mark(c, &format!("[markdown] {m}")), inp.clone());
+        }
+    }
+}
+
+const MD_BLOCKS: &[&str] = &[
+    "[[Target page|shown text]] ", "[[plain wikilink]] ", "[[a|b|c]] ", "[[x|y]] and [[z|w]] ", "[[a]] [[b|c]] ", "a | b [[c|d]]\n", "[[open|never closed\n", "| [[ x ]]\n", "[[a|b]]\n]] ",
+    "[[ [[n|m]] ]] ", "[[é|値😀]] ", "| pipe ", "[ [a|b] ] ", "[[|]] ", "[[a|]] ", "x [[ y\n\nz | w ]] ",
+    "`inline cde` ", "`` a ` b `` ", "` `` ` ", "$x^2$ ", "$$\ny = é\n$$\n\n", "$$$$ ", "$ $ ", "``` ```", "<b>bold é</b> ", "<div>\nblock é\n</div>\n\n", "<!-- cmt -->\n", "<br/>", "<>", "&amp; &copy; &#233; &nosuch; ",
+    "line one  \nline two\n", "line one\\\nline two\n", "soft\nbreak\n", "é\r\nü\r\n", "a\u{2028}b ",
+    "# Heading é\n\n", "Setext\n======\n\n", "## h {#id .cls}\n\n", "###### \n", "#\tTabbed\n",
+    "- item é\n- two\n\n", "- a\n  - nested\n    - deep\n\n", "1. one\n2. two\n   cont\n\n", "- [ ] todo\n- [x] done\n\n", "* \n*\n", "-\t\titem\n", "1.\t\tfoo\n",
+    "> quote é\n> more\n\n", "> lazy\ncontinuation\n\n", "> > \t\tdeep\n", "> [!NOTE]\n> alert text\n\n", "> - a\n> - b\n\n", ">\t\ttext here\n",
+    "```rust\nlet teh = 1; // é\n```\n\n", "    indented code\n\n", "~~~\ntilde é\n~~~\n", "```\nunclosed\n", "- a\n\n  ```\n\t\tcode\n  ```\n\t\tb c\n",
+    "| a | b |\n|---|:-:|\n| é | `c` |\n| x \\| y | z |\n\n", "| h |\n|---|\n| [[t|u]] |\n\n",
+    "[link é](https://example.com \"title é\") ", "[ref][r]\n\n[r]: http://x.y \"t\"\n\n", "![img alt](a.png) ", "<https://auto.link> ", "[a [b](c) d](e) ", "[^1] note\n\n[^1]: The footnote é.\n\n",
+    "*emph é* **strong** ~~strike~~ ***both*** ", "_a_ __b__ ~sub~ ^sup^ ", "**unclosed ", "*a **b* c** ",
+    "---\ntitle: é\n---\n\n", "+++\nx = 1\n+++\n\n", "***\n\n", "Term\n: definition é\n\n", "\\* escaped \\[ \\| ", "\t", "  ", "\n", "\n\n", "\u{feff}", "\0 ",
+];
+
+/// Markdown documents for the glue: block and inline constructs of every arm of Markdown::parse's match, wikilinks and
+/// pipes for the two removal passes, multi-byte characters, tabs after container markers, CR-LF, truncation
+fn md_text(r: &mut Rng) -> String {
+    let mut out = String::new();
+    for _ in 0..r.range(1, 6) {
+        match r.below(10) {
+            0 | 1 => out.push_str(&gen::sentence(r)),
+            2 => {
+                out.push_str(&gen::item(r));
+                out.push(' ');
+            }
+            3 => out.push_str(r.s(&["\n", "\n\n", " ", "  \n", "\\\n"])),
+            _ => out.push_str(r.s(MD_BLOCKS)),
+        }
+    }
+    match r.below(12) {
+        0 => {
+            let cut = r.below(out.chars().count() + 1);
+            out.chars().take(cut).collect()
+        }
+        1 => out.replace('\n', "\r\n"),
+        2 => out.trim_end().to_string(),
+        _ => out,
+    }
+}
+
 // ---------------------------------------------------------------- wrapper parsers (I, C, J, K)
 /// delegates to a real dictionary and records the `contains_word` queries answered `true`
 struct RecDict {
@@ -1062,6 +1295,17 @@ pub fn replay_input(rep: &mut Report, v: &Value, dict: &Arc<FstDictionary>) {
                 case_wrapper(rep, which, t, &ftoks_of_plain(&src), &extra, dict, "corpus");
             }
         }
+        "md" => {
+            if let Some(t) = v["text"].as_str() {
+                match v["ilt"].as_bool() {
+                    Some(b) => case_markdown(rep, t, b, dict, "corpus"),
+                    None => {
+                        case_markdown(rep, t, false, dict, "corpus");
+                        case_markdown(rep, t, true, dict, "corpus");
+                    }
+                }
+            }
+        }
         "law" => {}
         _ => {}
     }
@@ -1205,6 +1449,16 @@ pub fn run(a: &Args, corpus: &[Value]) {
         if r.chance(1, 3) {
             case_wrapped_doc(&mut rep, if which == 'I' { 'J' } else { 'K' }, &t, &extra, &dict, "generated");
         }
+    }
+    // ---- the Markdown glue (M, N): Markdown::parse / Document::new over the recorded pulldown-cmark event stream
+    for b in MD_BLOCKS {
+        case_markdown(&mut rep, b, false, &dict, "block");
+        case_markdown(&mut rep, &format!("{}{b}", gen::sentence(&mut r)), true, &dict, "block_after_sentence");
+    }
+    for _ in 0..a.scale(450, 9000) {
+        let t = if r.chance(1, 6) { frontends::embed("markdown", &mut r) } else { md_text(&mut r) };
+        let ilt = r.chance(1, 3);
+        case_markdown(&mut rep, &t, ilt, &dict, "generated");
     }
     // ---- every front-end: the four invariants (search only)
     let mut fes = frontends::base_frontends();
